@@ -168,7 +168,7 @@ def run_traces(ctx, out, jobs, label, chunk=80):
     """jobs: dict(hist, up, script, seed, fault_prob[, strict]). Runs the real actors, validates with TLC."""
     traces = []
     index = {}
-    stats = {"followed": 0, "skipped": 0, "livelock": 0, "fault": {"none": 0, "create": 0, "launch": 0, "leave": 0}, "ext": 0, "preserve": 0, "events": 0, "answered_started": 0, "answered_failed": 0, "stopped": 0, "proc": {"early": 0, "late": 0, "stubborn": 0}, "proc_stopped": {"early": 0, "late": 0, "stubborn": 0}, "lifecycles": {1: 0, 2: 0, 3: 0}, "reuse": {}}
+    stats = {"followed": 0, "skipped": 0, "livelock": 0, "fault": {"none": 0, "create": 0, "launch": 0, "leave": 0}, "ext": 0, "preserve": 0, "events": 0, "answered_started": 0, "answered_failed": 0, "stopped": 0, "proc": {"early": 0, "late": 0, "stubborn": 0}, "proc_stopped": {"early": 0, "late": 0, "stubborn": 0}, "lifecycles": {1: 0, 2: 0, 3: 0}, "reuse": {}, "race": {"known": 0, "unknown": 0}}
     for n, job in enumerate(jobs):
         tid = "%s-%d" % (label, n)
         hist = job["hist"]
@@ -188,6 +188,8 @@ def run_traces(ctx, out, jobs, label, chunk=80):
                 stats["stopped"] += "EngineStopped" in box
                 stats["fault"][cy["fault"]] += 1
                 for x in cy["nd"]:
+                    if x["race"] != "none":
+                        stats["race"][x["race"]] += 1
                     if x["proc"] != "alive":
                         stats["proc"][x["proc"]] += 1
                         stats["proc_stopped"][x["proc"]] += x["stops"] > 0
@@ -277,6 +279,8 @@ def run(ctx, out):
         "supplier / provisioner / race store are recording stubs; the launcher is the real ProcessLauncher with only _start_node replaced "
         "(real cluster.Node, real telemetry.Telemetry with one recording device): the real ProcessLauncher.stop runs against a fake psutil "
         "whose process table the environment controls (alive, already gone, dying while terminated, ignoring SIGTERM); "
+        "the race store is a recording fake that answers NotFound where the environment says the host's race store does not know the "
+        "race (always on remote hosts, sometimes on the coordinator's host), as the file race store does; "
         "provisioner.cleanup, Mechanic and metrics.calculate_system_results are real; the system metrics store is the real in-memory "
         "store made buffering like the Elasticsearch store (records searchable only after flush(refresh=True)), every node's "
         "telemetry produces one final_index_size_bytes record while the node is shut down; a start failure on a host happens before any of its nodes is up (in create() or in "
@@ -332,6 +336,9 @@ def run(ctx, out):
     out.extra["runs_benchmark_failure"] = total["answered_failed"]
     out.extra["runs_engine_stopped"] = total["stopped"]
     out.extra["runs_livelock"] = total["livelock"]
+    out.extra["nodes_stopped_by_race_store_answer"] = total["race"]
+    if total["race"]["known"] == 0 or total["race"]["unknown"] == 0:
+        out.vacuous.append("race store answer")
     out.extra["runs_by_number_of_lifecycles"] = total["lifecycles"]
     out.extra["reuse_transitions"] = total["reuse"]
     for key in ("external->provisioned", "provisioned->external", "provisioned->provisioned", "external->external", "failed-start->provisioned"):
